@@ -5,7 +5,7 @@
      (gkndt from the propagated rho and the same W, threshold, hop_to_it); time += dt.
    It only wires together Hop.v, Propagate.v and Hopper.v in the order the code uses them. *)
 From Coq Require Import ZArith List Bool Arith.
-From MV Require Import Ops Vec Cplx Mat Poisson Hop Hopper Propagate Ehrenfest Cumulative.
+From MV Require Import Ops Vec Cplx Mat Poisson Hop Hopper Propagate Ehrenfest Cumulative Afssh.
 Import ListNotations.
 
 Section Traj.
@@ -114,3 +114,72 @@ Section RunX.
         let '(sf, cf, atts) := run_cum n m dt ds' s1 c1 in (sf, cf, att :: atts)
     end.
 End RunX.
+
+(* ---- the pass with the linear-rk4 electronic integrator ---- *)
+Section TrajR.
+  Context {T : Type} (O : Ops T).
+  (* the loop body with electronic_integration = "linear-rk4": identical wiring, the density matrix takes the
+     interpolated RK4 step in the eigenbasis of the previous Hamiltonian (eigs, vecs: numpy's eigh(last_H), oracle data);
+     the hopping probabilities still use the midpoint propagator W *)
+  Definition step_rk4 (n : nat) (m : list T) (dt maxdt : T) (start : nat) (poisson : bool) (zeta : T)
+             (e0 e1 : elec (T:=T)) (eigs : list T) (vecs : list (list T)) (s : tstate (T:=T))
+    : tstate (T:=T) * mat (T:=T) * T * option (nat * bool) :=
+    let f0 := nth (pact s) (eforce e0) [] in
+    let x1 := advance_position O m (px s) (pv s) f0 dt in
+    let f1 := nth (pact s) (eforce e1) [] in
+    let v1 := advance_velocity O m (pv s) f0 f1 dt in
+    let W := Wmid O n (eH e0) (eH e1) (etau e0) (etau e1) v1 (pv s) in
+    let rho1 := rk4_step O n (eH e0) (eH e1) (etau e0) (etau e1) v1 (pv s) eigs vecs dt maxdt start (prho s) in
+    let g := gkndt O (row O n rho1 (pact s)) (colm O n W (pact s)) (pact s) dt in
+    let '(tg, hp) := hopper O poisson g zeta in
+    match tg with
+    | None => (mkT x1 v1 rho1 (pact s) (oadd O (ptime s) dt), W, hp, None)
+    | Some t =>
+        let '(a', v2, acc) := hop_to_it O m v1 (pact s) t (diagE O n e1) (tget (etau e1) (pact s) t) in
+        (mkT x1 v2 rho1 a' (oadd O (ptime s) dt), W, hp, Some (t, acc))
+    end.
+End TrajR.
+
+(* ---- the A-FSSH pass ---- *)
+Section TrajA.
+  Context {T : Type} (O : Ops T).
+  (* A-FSSH (augmented_integration = electronic_integration = "exp"): the loop body with the moment bookkeeping in the
+     order and with the arguments the code uses.
+       advance_position: x, then delR with the propagator of the PREVIOUS pass (last = electronics one position back,
+                         this = electronics at the current position, velocities v_t and v_{t-1}) - eigh answer (epsR, coR);
+       advance_velocity: v, then delP with this pass's propagator W (eigh answer (lam, Cm), shared with
+                         propagate_electronics), delF from the new electronics and the active force there, rho BEFORE propagation;
+       propagate_electronics; surface_hopping (direction = Re(delP_ss - delP_tt) of the updated moments; accepted hop
+       re-centres both moments); collapse (gamma from the re-centred moments, one uniform per non-active state). *)
+  Record astate := mkA { ab : tstate (T:=T); alastv : list T; adelR : list (mat (T:=T)); adelP : list (mat (T:=T)) }.
+
+  Definition rediag (n : nat) (M : mat (T:=T)) : list T := tabulate n (fun i => cre (mget O M i i)).
+
+  Definition step_af (n : nat) (m : list T) (dt : T) (poisson : bool) (zeta : T)
+             (eprev e0 e1 : elec (T:=T)) (fm1 : list (list (list T)))      (* fm1[x] = force_matrix[:,:,x] at the new position *)
+             (epsR : list T) (coR : mat (T:=T)) (lam : list T) (Cm : mat (T:=T)) (etas : list T) (s : astate)
+    : astate * option (nat * bool) * bool :=
+    let b := ab s in
+    let f0 := nth (pact b) (eforce e0) [] in
+    let x1 := advance_position O m (px b) (pv b) f0 dt in
+    let dR1 := map (fun p => let '(mx, (R, P)) := p in delR_exp O n epsR coR dt mx R P) (combine m (combine (adelR s) (adelP s))) in
+    let f1 := nth (pact b) (eforce e1) [] in
+    let v1 := advance_velocity O m (pv b) f0 f1 dt in
+    let W := Wmid O n (eH e0) (eH e1) (etau e0) (etau e1) v1 (pv b) in
+    let dP1 := map (fun p => let '(fx, (fmx, P)) := p in delP_exp O n lam Cm dt P (delF O n fmx fx) (prho b)) (combine f1 (combine fm1 (adelP s))) in
+    let rho1 := exp_step O n lam Cm dt (prho b) in
+    let g := gkndt O (row O n rho1 (pact b)) (colm O n W (pact b)) (pact b) dt in
+    let '(tg, _) := hopper O poisson g zeta in
+    let '(a2, v2, dR2, dP2, att) :=
+      match tg with
+      | None => (pact b, v1, dR1, dP1, None)
+      | Some t =>
+          let '(a', v', acc) := hop_to_it O m v1 (pact b) t (diagE O n e1) (afssh_direction O dP1 (pact b) t) in
+          if acc then (a', v', map (hop_shift O n t) dR1, map (hop_shift O n t) dP1, Some (t, true))
+          else (a', v', dR1, dP1, Some (t, false))
+      end in
+    let gam := gamma_collapse O n (map (rediag n) dR2) (map (rediag n) dP2) (tabulate n (fun i => map (fun fmx => nth i (nth i fmx []) (o0 O)) fm1)) a2 dt in
+    let '(coll, _) := collapse_scan O gam a2 0 etas in
+    let '(rho3, dR3, dP3) := collapse_apply O n a2 coll rho1 dR2 dP2 in
+    (mkA (mkT x1 v2 rho3 a2 (oadd O (ptime b) dt)) (pv b) dR3 dP3, att, coll).
+End TrajA.
